@@ -64,88 +64,95 @@ def run(ctx):
     heap = lambda o: I.heap[o.id]
     s_pt = "periodictable/core.py PeriodicTable"
 
-    # ---- R1 who may construct ---------------------------------------------------------------
-    for cls, allowed in ALLOWED.items():
-        sites = ctx.src.constructor_calls(cls)
-        found = False
-        for mod, node in sites:
-            where = ctx.src.enclosing_function(mod, node)
-            found = True
-            ok = _only_from(ctx, where, allowed)
-            (ctx.ok if ok else ctx.fail)("R1", f"{cls}(...) at {where}", *([] if ok else [f"{cls} objects may only be created inside their cache "
-                                         f"({sorted(allowed)}); a second construction site makes two objects for one atom"]),
-                                         **({"site": f"{ctx.src.where(mod, node)} {where}"}))
-        if not found:
-            raise AnalysisError(f"no construction site of {cls} found")
-    # the caches that hold the unique objects: discovered as the attribute in which a construction site stores what it made
-    caches = {}
-    for cls in ("Element", "Isotope", "Ion"):
-        for mod, node in ctx.src.constructor_calls(cls):
-            where = ctx.src.enclosing_function(mod, node)
-            fdef = ctx.src.funcs.get(where)
-            if fdef is None:
-                continue
-            made = set()
-            alias = {}        # local name -> attribute it was read from (isotopes = self._isotopes)
-            for st in ast.walk(fdef.node):
-                if isinstance(st, ast.Assign) and isinstance(st.value, ast.Attribute):
-                    for t in st.targets:
-                        if isinstance(t, ast.Name):
-                            alias[t.id] = st.value.attr
-            for st in ast.walk(fdef.node):
-                if isinstance(st, ast.Assign):
-                    is_made = st.value is node or (isinstance(st.value, ast.Name) and st.value.id in made)
-                    for t in st.targets:
-                        if isinstance(t, ast.Name) and st.value is node:
-                            made.add(t.id)
-                        if is_made and isinstance(t, ast.Subscript) and isinstance(t.value, ast.Attribute):
-                            caches.setdefault(t.value.attr, set()).add(where)
-                        if is_made and isinstance(t, ast.Subscript) and isinstance(t.value, ast.Name) and t.value.id in alias:
-                            caches.setdefault(alias[t.value.id], set()).add(where)
-    if len(caches) < 3:
-        raise AnalysisError(f"atom caches not recognised (found {sorted(caches)}; expected the element, isotope and ion tables)")
-    MUT = {"clear", "pop", "popitem", "update", "setdefault", "__delitem__", "__setitem__"}
-    nuse = 0
-    for mname, m in ctx.src.modules.items():
-        for node in ast.walk(m.tree):
-            attr = None
-            why = None
-            if isinstance(node, ast.Call) and isinstance(node.func, ast.Attribute) and node.func.attr in MUT \
-                    and isinstance(node.func.value, ast.Attribute) and node.func.value.attr in caches:
-                attr, why = node.func.value.attr, f".{node.func.attr}()"
-            elif isinstance(node, ast.Delete):
-                for t in node.targets:
-                    tb = t.value if isinstance(t, ast.Subscript) else t
-                    if isinstance(tb, ast.Attribute) and tb.attr in caches:
-                        attr, why = tb.attr, "del"
-            elif isinstance(node, (ast.Assign, ast.AugAssign)):
-                for t in (node.targets if isinstance(node, ast.Assign) else [node.target]):
-                    if isinstance(t, ast.Attribute) and t.attr in caches:
-                        attr, why = t.attr, "rebinding"
-                    elif isinstance(t, ast.Subscript) and isinstance(t.value, ast.Attribute) and t.value.attr in caches:
-                        attr, why = t.value.attr, "item assignment"
-            if attr is None:
-                continue
-            nuse += 1
-            where = ctx.src.enclosing_function(mname, node)
-            init_of_owner = where.endswith(".__init__") and why == "rebinding"
-            ok = init_of_owner or (why == "item assignment" and _only_from(ctx, where, caches[attr] | {w_ for c in ALLOWED.values() for w_ in c}))
-            (ctx.ok if ok else ctx.fail)("R1", f"cache .{attr}: {why} at {where}", *([] if ok else [
-                f"entries of the atom cache .{attr} are removed or replaced outside the code that creates them: "
-                "the atom is then created a second time and objects already handed out (D/T aliases, atoms in formulas, pickles) are no longer the table's"]),
-                **({"site": f"{ctx.src.where(mname, node)} {where}"}))
-    ctx.unit("cache_writes", nuse)
-    # positive example: the sweep must see a constructor call in a sample module
-    pos = ast.parse("def helper(el):\n    return Isotope(el, 3)\n")
-    n = sum(1 for nd in ast.walk(pos) if isinstance(nd, ast.Call) and getattr(nd.func, "id", None) == "Isotope")
-    ctx.check(n == 1, "R1", "self-check: the sweep recognises a foreign Isotope(...) call", "sweep is blind", "spec")
-    for cq in ("core.Element", "core.Isotope", "core.Ion"):
-        c = ctx.src.cls(cq)
-        defined = {st.name for st in c.body if isinstance(st, ast.FunctionDef)}
-        ctx.check(not (defined & HOOKS), "R1", f"{cq.split('.')[1]} defines no copy/pickle/equality hook besides __reduce__",
-                  f"defines {sorted(defined & HOOKS)}", ctx.src.where("core", c))
-        ctx.check("__reduce__" in defined, "R3", f"{cq.split('.')[1]} pickles by reference (__reduce__)", "no __reduce__", ctx.src.where("core", c))
-    ctx.floor("R1", 14)
+    # (the structural part - who may construct atoms, which caches hold them - is evaluated first but an anchor it cannot
+    # find does not keep the behavioural rules below from running: what they establish stands, and the analysis error is
+    # raised at the end)
+    deferred = None
+    try:
+        # ---- R1 who may construct ---------------------------------------------------------------
+        for cls, allowed in ALLOWED.items():
+            sites = ctx.src.constructor_calls(cls)
+            found = False
+            for mod, node in sites:
+                where = ctx.src.enclosing_function(mod, node)
+                found = True
+                ok = _only_from(ctx, where, allowed)
+                (ctx.ok if ok else ctx.fail)("R1", f"{cls}(...) at {where}", *([] if ok else [f"{cls} objects may only be created inside their cache "
+                                             f"({sorted(allowed)}); a second construction site makes two objects for one atom"]),
+                                             **({"site": f"{ctx.src.where(mod, node)} {where}"}))
+            if not found:
+                raise AnalysisError(f"no construction site of {cls} found")
+        # the caches that hold the unique objects: discovered as the attribute in which a construction site stores what it made
+        caches = {}
+        for cls in ("Element", "Isotope", "Ion"):
+            for mod, node in ctx.src.constructor_calls(cls):
+                where = ctx.src.enclosing_function(mod, node)
+                fdef = ctx.src.funcs.get(where)
+                if fdef is None:
+                    continue
+                made = set()
+                alias = {}        # local name -> attribute it was read from (isotopes = self._isotopes)
+                for st in ast.walk(fdef.node):
+                    if isinstance(st, ast.Assign) and isinstance(st.value, ast.Attribute):
+                        for t in st.targets:
+                            if isinstance(t, ast.Name):
+                                alias[t.id] = st.value.attr
+                for st in ast.walk(fdef.node):
+                    if isinstance(st, ast.Assign):
+                        is_made = st.value is node or (isinstance(st.value, ast.Name) and st.value.id in made)
+                        for t in st.targets:
+                            if isinstance(t, ast.Name) and st.value is node:
+                                made.add(t.id)
+                            if is_made and isinstance(t, ast.Subscript) and isinstance(t.value, ast.Attribute):
+                                caches.setdefault(t.value.attr, set()).add(where)
+                            if is_made and isinstance(t, ast.Subscript) and isinstance(t.value, ast.Name) and t.value.id in alias:
+                                caches.setdefault(alias[t.value.id], set()).add(where)
+        if len(caches) < 3:
+            raise AnalysisError(f"atom caches not recognised (found {sorted(caches)}; expected the element, isotope and ion tables)")
+        MUT = {"clear", "pop", "popitem", "update", "setdefault", "__delitem__", "__setitem__"}
+        nuse = 0
+        for mname, m in ctx.src.modules.items():
+            for node in ast.walk(m.tree):
+                attr = None
+                why = None
+                if isinstance(node, ast.Call) and isinstance(node.func, ast.Attribute) and node.func.attr in MUT \
+                        and isinstance(node.func.value, ast.Attribute) and node.func.value.attr in caches:
+                    attr, why = node.func.value.attr, f".{node.func.attr}()"
+                elif isinstance(node, ast.Delete):
+                    for t in node.targets:
+                        tb = t.value if isinstance(t, ast.Subscript) else t
+                        if isinstance(tb, ast.Attribute) and tb.attr in caches:
+                            attr, why = tb.attr, "del"
+                elif isinstance(node, (ast.Assign, ast.AugAssign)):
+                    for t in (node.targets if isinstance(node, ast.Assign) else [node.target]):
+                        if isinstance(t, ast.Attribute) and t.attr in caches:
+                            attr, why = t.attr, "rebinding"
+                        elif isinstance(t, ast.Subscript) and isinstance(t.value, ast.Attribute) and t.value.attr in caches:
+                            attr, why = t.value.attr, "item assignment"
+                if attr is None:
+                    continue
+                nuse += 1
+                where = ctx.src.enclosing_function(mname, node)
+                init_of_owner = where.endswith(".__init__") and why == "rebinding"
+                ok = init_of_owner or (why == "item assignment" and _only_from(ctx, where, caches[attr] | {w_ for c in ALLOWED.values() for w_ in c}))
+                (ctx.ok if ok else ctx.fail)("R1", f"cache .{attr}: {why} at {where}", *([] if ok else [
+                    f"entries of the atom cache .{attr} are removed or replaced outside the code that creates them: "
+                    "the atom is then created a second time and objects already handed out (D/T aliases, atoms in formulas, pickles) are no longer the table's"]),
+                    **({"site": f"{ctx.src.where(mname, node)} {where}"}))
+        ctx.unit("cache_writes", nuse)
+        # positive example: the sweep must see a constructor call in a sample module
+        pos = ast.parse("def helper(el):\n    return Isotope(el, 3)\n")
+        n = sum(1 for nd in ast.walk(pos) if isinstance(nd, ast.Call) and getattr(nd.func, "id", None) == "Isotope")
+        ctx.check(n == 1, "R1", "self-check: the sweep recognises a foreign Isotope(...) call", "sweep is blind", "spec")
+        for cq in ("core.Element", "core.Isotope", "core.Ion"):
+            c = ctx.src.cls(cq)
+            defined = {st.name for st in c.body if isinstance(st, ast.FunctionDef)}
+            ctx.check(not (defined & HOOKS), "R1", f"{cq.split('.')[1]} defines no copy/pickle/equality hook besides __reduce__",
+                      f"defines {sorted(defined & HOOKS)}", ctx.src.where("core", c))
+            ctx.check("__reduce__" in defined, "R3", f"{cq.split('.')[1]} pickles by reference (__reduce__)", "no __reduce__", ctx.src.where("core", c))
+        ctx.floor("R1", 14)
+    except AnalysisError as exc_:
+        deferred = exc_
 
     # ---- R2 all 119 elements through every route -------------------------------------------------
     bad = []
@@ -378,3 +385,6 @@ def run(ctx):
     ctx.check(not bad, "R6", "ion charges are distinct non-zero integers", f"{bad}", "periodictable/core.py element_base")
     ctx.extra["exhaustive"] = True
     ctx.unit("elements", len(base))
+    if deferred is not None:
+        raise deferred
+
